@@ -6,4 +6,5 @@ import (
 	_ "fxmc/props/c02"
 	_ "fxmc/props/c03"
 	_ "fxmc/props/c07"
+	_ "fxmc/props/c13"
 )
